@@ -3,11 +3,13 @@ package main
 // C19 / C05 / C15 correspondence: operation sequences on one plugin.Client.
 
 import (
+	"context"
 	"fmt"
 	"os"
 	"os/exec"
 	"path/filepath"
 	"strings"
+	"sync"
 	"sync/atomic"
 	"syscall"
 	"time"
@@ -71,6 +73,121 @@ func countDirs(base string) int {
 }
 
 var lcSeq int64
+
+// runLcConcurrent: n goroutines released together call Start (two thirds) or Client/Protocol (one third) on one client
+// launched through a real kit process (behind a counting RunnerFunc, or Cmd): at most one launch, one address, one client.
+func runLcConcurrent(launch string, autoMTLS bool, n int) (impl, pred string) {
+	work := os.Getenv("VERIF_WORK")
+	if work == "" {
+		work = os.TempDir()
+	}
+	base := filepath.Join(work, fmt.Sprintf("lcc-%d-%d", os.Getpid(), atomic.AddInt64(&lcSeq, 1)))
+	os.MkdirAll(base, 0o755)
+	defer os.RemoveAll(base)
+	var rfCalls int32
+	var mu sync.Mutex
+	var procs []*lcProcRunner
+	cfg := &plugin.ClientConfig{
+		HandshakeConfig:  kitHandshake(),
+		VersionedPlugins: kitHostSets(map[int]string{3: "netrpc"}, nil, nil),
+		Logger:           nullLogger(),
+		StartTimeout:     8 * time.Second,
+		AutoMTLS:         autoMTLS,
+		UnixSocketConfig: &plugin.UnixSocketConfig{TempDir: base},
+	}
+	mk := func() *exec.Cmd { return kitCmd(kitServeCfg{Sets: map[string]string{"3": "netrpc"}}, "TMPDIR="+base) }
+	if launch == "runner" {
+		cfg.RunnerFunc = func(l hclog.Logger, cm *exec.Cmd, tmpDir string) (runner.Runner, error) {
+			atomic.AddInt32(&rfCalls, 1)
+			c := mk()
+			c.Env = append(c.Env, cm.Env...)
+			pr, err := newLcProcRunner(c)
+			if err == nil {
+				mu.Lock()
+				procs = append(procs, pr)
+				mu.Unlock()
+			}
+			return pr, err
+		}
+	} else {
+		cfg.Cmd = mk()
+	}
+	client := plugin.NewClient(cfg)
+	defer func() {
+		withTimeout(10*time.Second, func() error { client.Kill(); return nil })
+		mu.Lock()
+		for _, pr := range procs {
+			pr.Kill(context.Background())
+		}
+		mu.Unlock()
+		if cfg.Cmd != nil && cfg.Cmd.Process != nil {
+			cfg.Cmd.Process.Kill()
+		}
+	}()
+	gate := make(chan struct{})
+	addrs := make([]string, n)
+	clients := make([]plugin.ClientProtocol, n)
+	errs := make([]error, n)
+	var wg sync.WaitGroup
+	hungAny := int32(0)
+	for i := 0; i < n; i++ {
+		wg.Add(1)
+		go func(i int) {
+			defer wg.Done()
+			<-gate
+			_, hung, pp := withTimeout(20*time.Second, func() error {
+				switch i % 3 {
+				case 2:
+					cp, err := client.Client()
+					clients[i], errs[i] = cp, err
+				default:
+					a, err := client.Start()
+					if err == nil {
+						addrs[i] = a.Network() + "/" + a.String()
+					}
+					errs[i] = err
+				}
+				return nil
+			})
+			if hung || pp != nil {
+				atomic.StoreInt32(&hungAny, 1)
+			}
+		}(i)
+	}
+	close(gate)
+	wg.Wait()
+	addrSet, clSet := map[string]bool{}, map[plugin.ClientProtocol]bool{}
+	okStarts := 0
+	for i := 0; i < n; i++ {
+		if addrs[i] != "" {
+			addrSet[addrs[i]] = true
+			okStarts++
+		}
+		if clients[i] != nil {
+			clSet[clients[i]] = true
+		}
+	}
+	launches := int(atomic.LoadInt32(&rfCalls))
+	dirs := countDirs(base)
+	impl = fmt.Sprintf("okstarts=%d addrs=%d clients=%d launches=%d dirs=%d", okStarts, len(addrSet), len(clSet), launches, dirs)
+	switch {
+	case hungAny != 0:
+		pred = "FAIL:concurrent-call-hung-or-panicked"
+	case launches > 1:
+		pred = "FAIL:launched-more-than-once"
+	case dirs > 1:
+		pred = "FAIL:more-than-one-socket-dir"
+	case len(addrSet) > 1:
+		pred = "FAIL:start-returned-different-addresses"
+	case len(clSet) > 1:
+		pred = "FAIL:client-returned-different-clients"
+	case okStarts == 0:
+		pred = "FAIL:no-start-succeeded"
+	default:
+		pred = "ok"
+	}
+	return impl, pred
+}
 
 func runLcCase(c *lcCase) lcObs {
 	work := os.Getenv("VERIF_WORK")
@@ -296,6 +413,15 @@ func init() {
 		parallel(len(cases), 24, func(i int) { res[i] = runLcCase(cases[i]) })
 		for i, c := range cases {
 			o.emit(c.line("C19"), res[i].impl, res[i].pred)
+		}
+		// the concurrent mix: many goroutines call Start / Client / Protocol on one client at the same instant
+		for _, auto := range []bool{false, true} {
+			for _, launch := range []string{"runner", "cmd"} {
+				for rep := 0; rep < 3; rep++ {
+					impl, pred := runLcConcurrent(launch, auto, 8)
+					o.emit(fmt.Sprintf("!C19.conc launch=%s automtls=%s n=8 rep=%d", launch, b01(auto), rep), impl, pred)
+				}
+			}
 		}
 		o.note("C19: %d operation sequences (exhaustive up to length %d over 7 ops with a scripted runner, up to %d over {S,C,P,K} with a real process, reattach live/dead up to 3)", len(cases), runnerLen, cmdLen+1)
 	})
